@@ -592,9 +592,10 @@ def instantiate_fn(fs, item, em):
                     cl.append("%s" % kind)
                     for ci, cexpr in enumerate(cs, 1):
                         obid = "%s#cl[%s]%s%d" % (fnkey, n, kind[:3], ci)
+                        cexpr, ctag = split_tag(cexpr)       # a single clause may carry its own `#[Cxx]`
                         cl.append("    %s,  /*@ob %s*/" % (cexpr, obid))
                         em._pending.append({"id": obid, "kind": "closure-" + kind, "fn": fnkey,
-                                            "tags": list(spec.get("tags") or [t for t in fs.tags if t != "C16"]),
+                                            "tags": list(ctag or spec.get("tags") or [t for t in fs.tags if t != "C16"]),
                                             "text": cexpr, "marker": obid})
             ctext = ("\n" + "\n".join("                " + x for x in cl) + "\n            ") if cl else " "
             b1, b2 = toks[c["bar1"]], toks[c["bar2"]]
